@@ -1380,10 +1380,10 @@ class ProgramData:
                     if input_filename is not None:
                         raise RuntimeError("Program filename specified multiple times")
                     input_filename = option
-                    program_output_name = os.path.splitext(os.path.basename(input_filename))[0]
-                    program_output_name = "".join(x if (
+                    default_output_name = os.path.splitext(os.path.basename(input_filename))[0]
+                    default_output_name = "".join(x if (
                         x in string.ascii_letters or x == '_' or (i > 0 and x in string.digits)
-                    ) else '_' for i, x in enumerate(program_output_name))
+                    ) else '_' for i, x in enumerate(default_output_name))
                     continue
                 elif option[1] == "-":
                     option_name = option[2:]
@@ -1459,6 +1459,10 @@ class ProgramData:
 
         if input_filename is None:
             raise RuntimeError("No input file provided!")
+
+        # an explicit -o/--output wins wherever it stands relative to the input file
+        if program_output_name is None:
+            program_output_name = default_output_name
 
         for j in range(optimize_level + 1):
             for i in cls._OPTIMIZE_LEVELS[j]:
